@@ -22,7 +22,11 @@ unsigned int UNIT(u_pgm_e2e)(ukey_t *d, unsigned long n, ukey_t *q, unsigned lon
 #define ORD_LO 0
 #endif
 #ifndef ORD_HI
+#ifdef ALLOW_SENTINEL
+#define ORD_HI ORD_MAX
+#else
 #define ORD_HI (ORD_MAX - 1) /* the largest value is the reserved sentinel */
+#endif
 #endif
 
 VERIF_MAIN {
@@ -35,10 +39,15 @@ VERIF_MAIN {
   }
   unsigned long long qo = IN(0, ORD_MAX - 1);
   ukey_t q = FROM_ORD(qo);
-  unsigned long out[5] = {0, 0, 0, 0, 0};
+  unsigned long out[7] = {0, 0, 0, 0, 0, 0, 0};
   unsigned int rc = UNIT(u_pgm_e2e)(d, n, &q, out);
   unsigned long pos = out[0], lo = out[1], hi = out[2], segs = out[3], height = out[4];
-  OUT(rc); OUT(pos); OUT(lo); OUT(hi); OUT(segs); OUT(height);
+  OUT(rc); OUT(pos); OUT(lo); OUT(hi); OUT(segs); OUT(height); OUT(out[5]); OUT(out[6]);
+#ifdef ALLOW_SENTINEL
+  /* C20: data whose last key is the reserved value must be rejected with std::invalid_argument, and only such data */
+  ASSERT((rc == 1) == (ord[n - 1] == ORD_MAX), "C20 std::invalid_argument iff the data contains the reserved largest key");
+  if (ord[n - 1] == ORD_MAX) { VERIF_END; }
+#endif
   ASSERT(rc == 0, "construction and search on valid input do not throw");
   unsigned long lb = 0;
   for (int i = 0; i < N; i++)
@@ -50,5 +59,11 @@ VERIF_MAIN {
   if (lb < n && ord[lb] == qo) ASSERT(lb < hi, "C01 first occurrence of a present key lies in [lo,hi)");
   ASSERT(segs >= 1 && segs <= n / (2 * (EPS) + 1) + 2, "C04 segments_count <= floor(n/(2eps+1)) + c + 1 with c = 1");
   ASSERT(height >= 1, "height >= 1");
+#if EPSREC > 0
+  ASSERT(out[5] <= (EPSREC) + 1, "C07 at every level the responsible segment lies within EpsilonRecursive+1 of the predicted position");
+#endif
+#ifdef WITH_FRAME
+  ASSERT(out[6] == 1, "C16 search() leaves every byte of the index unchanged and is deterministic (no write => no data race between readers)");
+#endif
   VERIF_END;
 }
